@@ -3,7 +3,7 @@ Engine H: hand-written Gallina model of scalarNewtonRaphson / BissectionAlgorith
 (coq/C09Model.v), theorems for every operation table / user function / criterion / budget; the tie to /repo is the
 bit-exact agreement of the model run on Coq primitive floats (vm_compute) with the REAL template run on the same
 user functions given as data (everything observable: returned triple and every evaluation point of f)."""
-import math, os, re, struct
+import math, os, re, struct, threading
 from vlib import guarded_main
 
 DBL_MAX = 1.7976931348623157e308
@@ -84,6 +84,14 @@ def named_cases():
     # cubic with non-monotone region and bracket
     cs.append(Case("cubic", [], [1.0, -3.0, 0.0, 1.0], [-3.0, 0.0, 3.0], 0, 1e-10, 0.0, 0, 1.0, 50, -3.0, 0.0))
     cs.append(Case("bigbr", [(0.0, [-1.0], [0.0])], [1.0], [0.0], 2, 0.0, 0.0, 0, 0.0, 6, -1.7e308, 1.7e308))
+    # brackets whose ends are odd multiples of the smallest subnormal (halving inexact: the midpoint law of C09B64 at work),
+    # straddling zero, across the subnormal/normal border, and the widest bracket; zero derivative -> bisection only
+    U = 5e-324
+    for (nm, a, b, thr) in [("sub1-3", U, 3 * U, U), ("sub3-5", 3 * U, 5 * U, 4 * U), ("sub-1+1", -U, U, -U), ("sub-3+7", -3 * U, 7 * U, 2 * U),
+                            ("sub1-2", U, 2 * U, U), ("subnorm", 2.2250738585072009e-308, 2.2250738585072024e-308, 2.2250738585072014e-308),
+                            ("sub7-1e300", 7 * U, 1e300, 1e-300), ("maxbr", -DBL_MAX, DBL_MAX, 1e300), ("maxpos", 1.7976931348623155e308, DBL_MAX, 1.7976931348623155e308)]:
+        cs.append(Case(nm, [(thr, [-1.0], [0.0])], [1.0], [0.0], 2, 0.0, 0.0, 0, a, 12, a, b))
+        cs.append(Case(nm + "r", [(thr, [1.0], [0.0])], [-TINY], [0.0], 2, 0.0, 0.0, 0, b, 12, b, a))
     return cs
 
 
@@ -282,6 +290,24 @@ def main(c):
     finding = [k for k in (KEY_NAN, KEY_OVF) if k in c.known_hits or any(v[0] == k for v in c.violations)]
     variant = "Pinned" if finding else "NaNSafe"
     c.log("getNextRootEstimate variant implemented by the tree:", variant, "(escape keys observed: %s)" % finding)
+    # ---- theorems: compiled in two threads next to the model evaluation (3 coqc at a time)
+    base = c.coq(MODEL, timeout=600)
+    scratch_model = [os.path.join(c.work, "coq", f) for f in MODEL]   # already compiled: coq_eval does not touch them again
+    thm = {}
+
+    def comp(key, fl):
+        thm[key] = c.coq(fl, timeout=900)
+    if variant == "Pinned":
+        groups = {"A": ["C09Proofs.v", "C09ER.v", "Properties_C09.v"], "B": ["C09Refute.v", "Properties_C09_refuted.v"]}
+        c.notes.append("finding F9 present: confinement theorem replaced by its refutation (Properties_C09_refuted.v); "
+                       "the positive theorems Properties_C09_confined.v / Properties_C09_binary64.v are the obligations once the repair is in")
+    else:
+        # confinement for every scalar type satisfying the laws (A), the laws for binary64 = the executed table `fops` (B, Flocq)
+        groups = {"A": ["C09Proofs.v", "C09ER.v", "Properties_C09.v", "C09Confine.v", "Properties_C09_confined.v"],
+                  "B": ["C09Mid.v", "C09B64.v"]}
+    ths = [threading.Thread(target=comp, args=kv) for kv in groups.items()] if base.ok else []
+    for t in ths:
+        t.start()
     # ---- correspondence: model on primitive floats vs real code, bit-exact
     mism = []
     chunk = 6000
@@ -292,14 +318,18 @@ def main(c):
                "Open Scope float_scope.\n" + "".join(
                    "Eval vm_compute in map (run1 %s) [\n%s].\n" % (variant, ";\n".join(cs.coq(variant) for cs in sub[j:j + 500]))
                    for j in range(0, len(sub), 500)))
-        rc, out, err = c.coq_eval(MODEL, txt, timeout=900)
+        rc, out, err = c.coq_eval(scratch_model if base.ok else MODEL, txt, timeout=900)
         if rc != 0:
             c.report("model-run", "model evaluation failed: " + err[-600:], {"stderr": err[-3000:]}, False)
+            for t in ths:
+                t.join()
             return
         c.log('model evaluated on %d cases' % len(sub))
         mres = parse_coq(out)
         if len(mres) != len(sub):
             c.report("model-run", "model printed %d results for %d cases" % (len(mres), len(sub)), {"stdout": out[-2000:]}, False)
+            for t in ths:
+                t.join()
             return
         for cs, m in zip(sub, mres):
             o = obs[cs.id]
@@ -320,6 +350,7 @@ def main(c):
     c.trusted("hand-written Gallina model coq/C09Model.v (tied to /repo by bit-exact differential execution only)",
               "C++ driver props/C09/driver.cxx (Horner/piecewise interpreter, logging) and its Coq twin coq/C09Float.v",
               "g++ -O1 -ffp-contract=off x86-64 SSE2 double arithmetic = IEEE-754 binary64 = Coq primitive floats",
+              "Flocq 4.1.0 (IEEE754.BinarySingleNaN, IEEE754.PrimFloat) and the FloatAxioms of Coq's standard library: specification of the primitive float operations",
               "Python differ and float parsing (hex <-> 17-digit decimal)")
     if mism:
         # concrete failing inputs, if any, have been reported above by the independent spec
@@ -330,20 +361,22 @@ def main(c):
             (o[0], hx(o[1]), o[2], [hx(cl[0]) for cl in o[3]][:12])), cs.json(), False)
         if found:
             c.notes.append("correspondence broken; concrete property failures found by the independent spec are reported above")
-    # ---- theorems
-    files = ["C09Model.v", "C09Spec.v", "C09Float.v", "C09Proofs.v", "C09ER.v", "Properties_C09.v"]
-    if variant == "Pinned":
-        files += ["C09Refute.v", "Properties_C09_refuted.v"]
-        c.notes.append("finding F9 present: confinement theorem replaced by its refutation (Properties_C09_refuted.v); "
-                       "the positive theorem Properties_C09_confined.v is the obligation once the repair is in")
-    else:
-        files += ["C09Confine.v", "Properties_C09_confined.v"]
-    res = c.coq(files, timeout=600)
-    if not res.ok:
-        c.coq_failures(res)
+    # ---- theorems (threads started above)
+    for t in ths:
+        t.join()
+    results = [base] + list(thm.values())
+    if variant != "Pinned" and all(r.ok for r in results):
+        results.append(c.coq(["Properties_C09_binary64.v"], timeout=600))
+    for res in results:
+        if not res.ok:
+            c.coq_failures(res)
+    c.coverage["checker_cmd"] = ("coqc -Q coq/lib VLib -R <scratch> C09 C09Model.v C09Spec.v C09Float.v C09Proofs.v C09ER.v Properties_C09.v " +
+                                 ("C09Refute.v Properties_C09_refuted.v" if variant == "Pinned" else
+                                  "C09Confine.v Properties_C09_confined.v C09Mid.v C09B64.v Properties_C09_binary64.v") + " (Coq 8.16.1, Flocq 4.1.0)")
     c.assumptions.append("IndexType modelled as nat (im >= 0); user function and criterion are pure functions of their arguments")
-    c.assumptions.append("confinement theorem: scalar type satisfies C09Spec.laws (order laws + xmin/2+xmax/2 lies in [xmin,xmax]); proved for exact "
-                         "extended rationals, exercised but not proved for binary64")
+    c.assumptions.append("confinement theorem C09_confined: scalar type satisfies C09Spec.laws (order laws + xmin/2+xmax/2 lies in [xmin,xmax] for "
+                         "different finite xmin <= xmax); the laws are proved for exact extended rationals and for binary64 (C09_laws_binary64: Flocq "
+                         "BinarySingleNaN + Coq FloatAxioms), so C09_confined_binary64 has no hypothesis on the arithmetic")
 
 
 guarded_main("C09", main)
